@@ -46,6 +46,7 @@ type checkCtx struct {
 
 	crashDiscard func(status, detail string) bool // record mode: dead/stuck workers that are not judged
 
+	sigCount   map[string]int // mismatches per signature (before known-finding classification)
 	violations []violation
 	knownLines []string
 	knownSeen  map[string]bool
@@ -492,6 +493,10 @@ func (c *checkCtx) mismatch(fam string, cs, r map[string]J) {
 	text := fmt.Sprintf("%s => status=%s observed=%s expected=%s %s", input, st, obs, exp, oneLine(det, 300))
 	if sig, ok := r["sig"].(string); ok {
 		text = "sig=" + sig + " " + text
+		if c.sigCount == nil {
+			c.sigCount = map[string]int{}
+		}
+		c.sigCount[sig]++
 	}
 	for _, k := range c.known {
 		if k.property == c.id && k.re.MatchString(text) {
